@@ -1216,6 +1216,56 @@ val abs_val : nat -> n -> payload -> vtree m
 
 val store_tree : nat -> n -> vtree -> unit m
 
+val budget_error : token -> n -> 'a1 m
+
+val for_continues : z -> z -> z -> bool
+
+val run_body : unit m -> bool m
+
+val tick : limits -> token -> n -> unit m
+
+val cond_bool : token -> n -> result m -> bool m
+
+val if_chain : token -> n -> (result m option * unit m) list -> result m
+
+val case_chain : (bool m * unit m) list -> result m
+
+val while_loop : limits -> nat -> token -> n -> result m -> unit m -> result m
+
+val repeat_loop :
+  limits -> nat -> token -> n -> result m -> unit m -> result m
+
+val for_loop :
+  limits -> nat -> token -> n -> n -> z -> z -> unit m -> result m
+
+val os_name_ok : str -> bool
+
+val fs_set : str -> str -> (str * str) list -> (str * str) list
+
+val fs_get : str -> (str * str) list -> str option
+
+val find_file : str -> ofile list -> ofile option
+
+val replace_file : ofile -> ofile list -> ofile list
+
+val remove_file : str -> ofile list -> ofile list
+
+val close_file_effect : ofile -> unit m
+
+val create_file : str -> fmode -> bool m
+
+val update_file : ofile -> unit m
+
+val file_read_line : ofile -> str * ofile
+
+val set_nth_str : str list -> z -> str -> str list
+
+val rf_seek : ofile -> z -> ofile option
+
+val rf_put : ofile -> str -> ofile
+
+val rf_get : ofile -> str option
+
 val is_leap : z -> bool
 
 val days_in_month : z -> z -> z
@@ -1262,10 +1312,6 @@ val rand_max : z
 
 val bi_rand : z -> z -> z -> real
 
-val budget_error : token -> n -> 'a1 m
-
-val tick : limits -> token -> n -> unit m
-
 val alloc_cells : limits -> z -> n -> unit m
 
 val check_strlen : limits -> z -> token -> n -> unit m
@@ -1288,29 +1334,11 @@ val arith_int : ttype -> z -> z -> z
 
 val mod_real : real -> real -> real
 
+val eval_arith : token -> n -> result -> result -> result m
+
+val eval_cmp : token -> n -> result -> result -> result m
+
 val read_line : (str * bool) m
-
-val os_name_ok : str -> bool
-
-val fs_set : str -> str -> (str * str) list -> (str * str) list
-
-val fs_get : str -> (str * str) list -> str option
-
-val find_file : str -> ofile list -> ofile option
-
-val replace_file : ofile -> ofile list -> ofile list
-
-val remove_file : str -> ofile list -> ofile list
-
-val close_file_effect : ofile -> unit m
-
-val create_file : str -> fmode -> bool m
-
-val update_file : ofile -> unit m
-
-val file_read_line : ofile -> str * ofile
-
-val set_nth_str : str list -> z -> str -> str list
 
 val enum_name : n -> str -> z -> str m
 
@@ -1333,6 +1361,8 @@ val next_rand : z m
 val run_builtin : str -> n -> payload list -> result m
 
 val hfuel : nat
+
+val store_value : token -> n -> n -> result -> result m
 
 val expect_holder_var : token -> n -> holder -> n m
 
